@@ -12,7 +12,7 @@ order of commutative operators or early-return vs else have the same term.
 This is value numbering on gated SSA; no path is enumerated, nothing is executed
 on data.  Only *constant* sub-expressions are evaluated (constant folding).
 """
-import ast, re
+import ast, re, os
 
 MAX_FOLD_LEN = 70000
 MAX_UNROLL = 4096
@@ -328,6 +328,20 @@ class Opts:
         self.ordered = ordered      # keep operand order of every operator (reflected-operator methods dispatch on it)
 
 
+def _divmod_identity(items, opts):
+    """c*(x//c) + x%c  ->  x   over Python ints"""
+    for i, a in enumerate(items):
+        if a[0] == '%' and is_int(a[1][1]) and type(a[1][1][1]) is int and is_pyint(a[1][0]):
+            x, c = a[1][0], a[1][1]
+            want = ('//', (x, c))
+            for j, b in enumerate(items):
+                if j != i and b[0] == '*' and len(b[1]) == 2 and c in b[1] and want in b[1] and b[1][0] != b[1][1]:
+                    rest = [y for k, y in enumerate(items) if k not in (i, j)]
+                    out = rest + ([x] if x[0] != '+' else list(x[1]))
+                    return _divmod_identity(_collect_like(out, opts), opts)
+    return items
+
+
 def _collect_like(items, opts):
     """x + x -> 2*x ; k1*x + k2*x -> (k1+k2)*x   (numeric, commutative sums only)"""
     coef = {}
@@ -394,6 +408,10 @@ def canon_seq(S, opts=None):
                 n = C(len(to_py(S)))
             except (NotConcrete, OverflowError):
                 n = ('call', ('b', 'len'), (S,), ())
+                if is_int(st) and st[1] != 0 and is_pyint(a) and is_pyint(b):
+                    d_ = mk_bin('+', b, mk_neg(a, opts), Opts(plus_commutes=True))
+                    if is_int(d_):
+                        n = C(len(range(0, d_[1], st[1])))         # range(a, a+c, st) has a constant length
         return n, (lambda k: mk_bin('+', a, mk_bin('*', st, k, opts), opts))
     if tag == 'call' and S[1] == ('b', 'reversed') and len(S[2]) == 1 and not S[3]:
         inner = canon_seq(S[2][0], opts)
@@ -566,6 +584,30 @@ def mk_bin(op, a, b, opts=None):
             a = force_num(a, opts)
         if not (op == '%' and kind_of(a) == 'seq'):
             b = force_num(b, opts)
+    if op == '%' and is_int(b) and type(b[1]) is int and b[1] > 0 and is_pyint(a) and not (opts is not None and opts.ordered):
+        m_ = b[1]
+        if a[0] == '%' and is_int(a[1][1]) and type(a[1][1][1]) is int and a[1][1][1] > 0 and a[1][1][1] % m_ == 0:
+            return mk_bin('%', a[1][0], b, opts)                   # (x % (k*m)) % m == x % m
+        if a[0] == '+':
+            keep = []
+            for x in a[1]:
+                if is_int(x) and type(x[1]) is int:
+                    if x[1] % m_:
+                        keep.append(C(x[1] % m_))
+                    continue
+                if x[0] == '*' and any(is_int(y) and type(y[1]) is int and y[1] % m_ == 0 for y in x[1]):
+                    continue                                       # a multiple of m
+                if x[0] == '%' and is_int(x[1][1]) and type(x[1][1][1]) is int and x[1][1][1] > 0 and x[1][1][1] % m_ == 0:
+                    keep.append(x[1][0])
+                    continue
+                keep.append(x)
+            if len(keep) != len(a[1]) or any(k1 is not k2 for k1, k2 in zip(keep, a[1])):
+                if not keep:
+                    return C(0)
+                acc = keep[0]
+                for x in keep[1:]:
+                    acc = mk_bin('+', acc, x, opts)
+                return mk_bin('%', acc, b, opts) if acc != a else ('%', (a, b))
     if op in ('//', '%') and is_int(b) and type(b[1]) is int and b[1] > 0 and a[0] == '*' and is_pyint(a):
         cs = [y for y in a[1] if is_int(y) and type(y[1]) is int]
         if len(cs) == 1 and cs[0][1] % b[1] == 0:
@@ -650,6 +692,7 @@ def mk_bin(op, a, b, opts=None):
                 items = [x for x in items if not (is_int(x) and type(x[1]) is int)] + [C(acc)]
             if op == '+':
                 items = _collect_like(items, opts)
+                items = _divmod_identity(items, opts)
             if op in IDENT and len(items) > 1:
                 it2 = [x for x in items if not (is_int(x) and type(x[1]) is int and x[1] == IDENT[op])]
                 if it2 and (op != '*' or True):
@@ -945,6 +988,16 @@ def get_idx(seq, idx):
 
 def set_idx(seq, idx, val):
     tag = seq[0]
+    if idx[0] == 'slice' and idx[3] == NONE and val[0] in ('tuple', 'list') and 1 <= len(val[1]) <= 8 and tag != 'list':
+        lo = C(0) if idx[1] == NONE else idx[1]
+        if idx[2] != NONE and (is_pyint(lo) or is_pyint(idx[2])):
+            d_ = mk_bin('+', idx[2], mk_neg(lo), Opts(plus_commutes=True))
+            if d_ == C(len(val[1])) and not (is_int(lo) and lo[1] < 0):
+                # x[i:i+n] = (v0, .., vn-1) with exactly n values is n element stores
+                out = seq
+                for k_, v_ in enumerate(val[1]):
+                    out = set_idx(out, mk_bin('+', lo, C(k_), Opts(plus_commutes=True)), v_)
+                return out
     if tag == 'list' and is_int(idx):
         n = len(seq[1])
         if -n <= idx[1] < n:
@@ -1131,6 +1184,10 @@ class PE:
         self.call_hook = call_hook                 # (pe, func_term, args, kwargs, env) -> term or None
         self.module_mode = module_mode
         self.nloops = 0
+        self.aliases = {}          # local name -> (attribute path, place AST): the name is a view of that place
+        self.inplace_updated = set()
+        self.loop_W = {}           # (loop id, rank) -> (attributes the loop stores on that carried object, its initial term)
+        self.branch_depth = 0
         self.ntry = 0
         self.lam_depth = 0
         self.sm = Summary()
@@ -1168,7 +1225,29 @@ class PE:
         return C(v)
 
     def ev_Name(self, n, env):
+        al = self.aliases.get(n.id)
+        if al is not None and isinstance(n.ctx, ast.Load):
+            return self.ev(al[1], env)        # the name is a view of the place it was bound to
         return self.lookup(n.id, env, n)
+
+    @staticmethod
+    def _attr_path(n):
+        """('self', 'c', 'ival') for self.c.ival, None if the expression is not a pure attribute chain on a name"""
+        path = []
+        while isinstance(n, ast.Attribute):
+            path.append(n.attr)
+            n = n.value
+        if isinstance(n, ast.Name) and path:
+            return (n.id,) + tuple(reversed(path))
+        return None
+
+    def _drop_aliases_under(self, path, env):
+        """the place `path` is being rebound: names viewing it (or something below it) keep the object they saw"""
+        for name, (q, place) in list(self.aliases.items()):
+            if q[:len(path)] == path:
+                val = self.ev(place, env)
+                del self.aliases[name]
+                env[name] = val
 
     def ev_Tuple(self, n, env):
         items = tuple(self.ev(e, env) for e in n.elts)
@@ -1484,7 +1563,7 @@ class PE:
                     for a_ in chain:
                         new = ('mut', meth, new, a_)
             res = ('mutres', meth, cur, tuple(args)) if meth in ('pop', 'popitem', 'setdefault') else NONE
-        self.store(place, new, env)
+        self.store(place, new, env, True)
         return res
 
     def call(self, f, args, kw, env, node=None):
@@ -1694,6 +1773,7 @@ class PE:
     # -- statements -------------------------------------------------------------
     def bind_target(self, tgt, val, env):
         if isinstance(tgt, ast.Name):
+            self.aliases.pop(tgt.id, None)
             env[tgt.id] = val
         elif isinstance(tgt, (ast.Tuple, ast.List)):
             n = len(tgt.elts)
@@ -1716,14 +1796,24 @@ class PE:
         else:
             raise Unsupported('loop target', tgt)
 
-    def store(self, tgt, val, env):
+    def store(self, tgt, val, env, update=False):
         if isinstance(tgt, ast.Name):
+            al = self.aliases.get(tgt.id)
+            if al is not None and update:
+                self.store(al[1], val, env, True)       # an in-place update through the view updates the place
+                return
+            if al is not None:
+                del self.aliases[tgt.id]
             env[tgt.id] = val
         elif isinstance(tgt, ast.Attribute):
+            if not update:
+                p_ = self._attr_path(tgt)
+                if p_ is not None and self.aliases:
+                    self._drop_aliases_under(p_, env)
             base = self.ev(tgt.value, env)
             newbase = set_attr(base, tgt.attr, val)
             if self.is_place(tgt.value):
-                self.store(tgt.value, newbase, env)
+                self.store(tgt.value, newbase, env, True)
             else:
                 self.cur_effects.append(('setattr', base, tgt.attr, val))
         elif isinstance(tgt, ast.Subscript):
@@ -1731,7 +1821,7 @@ class PE:
             idx = self.ev(tgt.slice, env)
             newbase = set_idx(base, idx, val)
             if self.is_place(tgt.value):
-                self.store(tgt.value, newbase, env)
+                self.store(tgt.value, newbase, env, True)
             else:
                 self.cur_effects.append(('setitem', base, idx, val))
         elif isinstance(tgt, (ast.Tuple, ast.List)):
@@ -1766,6 +1856,19 @@ class PE:
             for t in s.targets:
                 self.cur_effects = effects
                 self.bind_target(t, v, env) if isinstance(t, (ast.Name, ast.Tuple, ast.List)) else self.store(t, v, env)
+            pairs = []
+            if len(s.targets) == 1 and isinstance(s.targets[0], ast.Name):
+                pairs = [(s.targets[0], s.value)]
+            elif len(s.targets) == 1 and isinstance(s.targets[0], ast.Tuple) and isinstance(s.value, ast.Tuple) \
+                    and len(s.targets[0].elts) == len(s.value.elts):
+                pairs = [(t_, v_) for t_, v_ in zip(s.targets[0].elts, s.value.elts) if isinstance(t_, ast.Name)]
+            for t_, v_ in pairs:
+                p_ = self._attr_path(v_)
+                if p_ is not None and t_.id in self.inplace_updated and p_[0] != t_.id and p_[0] in env and p_[0] not in self.aliases:
+                    vt = env.get(t_.id)
+                    if vt is not None and not is_c(vt) and vt[0] not in ('lam', 'g', 'b'):
+                        # x = self.a.b and x is later updated in place: x is a view of that (mutable) object
+                        self.aliases[t_.id] = (p_, v_)
             return False
         if isinstance(s, ast.AnnAssign):
             if s.value is not None:
@@ -1865,8 +1968,21 @@ class PE:
             return self.exec_block(s.orelse, env, effects)
         ea, eb = dict(env), dict(env)
         fa, fb = [], []
-        ta = self.exec_block(s.body, ea, fa)
-        tb = self.exec_block(s.orelse, eb, fb)
+        self.branch_depth += 1
+        al0 = dict(self.aliases)
+        try:
+            ta = self.exec_block(s.body, ea, fa)
+            ala = self.aliases
+            self.aliases = dict(al0)
+            tb = self.exec_block(s.orelse, eb, fb)
+            alb = self.aliases
+        finally:
+            self.branch_depth -= 1
+        # a view made inside one branch ends with the branch; views dropped in a branch stay dropped
+        self.aliases = {k: v for k, v in al0.items() if ala.get(k) == v and alb.get(k) == v}
+        if ta != tb:
+            # the rest of the block continues inside the live branch with that branch's views
+            self.aliases = dict(alb if ta else ala)
         if ta and tb:
             self.emit_if(c, fa, fb, effects)
             return True
@@ -2107,6 +2223,9 @@ class PE:
         self.nloops += 1
         L = self.nloops
         assigned = self.assigned_names(s.body + ([] if kind == 'while' else []))
+        for v_ in list(assigned):
+            if v_ in self.aliases and self.aliases[v_][0][0] not in assigned:
+                assigned.append(self.aliases[v_][0][0])      # an update through a view updates the viewed object's root
         if kind == 'for':
             tn = self.assigned_names([ast.Assign(targets=[s.target], value=ast.Constant(value=0))])
         else:
@@ -2230,6 +2349,49 @@ class PE:
                 nexts = tuple(env2.get(v, ('unbound', '?')) for v in carried)
                 for v in ivs:
                     env[v] = iv_after[v]
+        # ---- a loop whose body is one inner loop over a constant number of steps, threading the same carried variables,
+        #      is the flat loop over n1*n2 steps (3 rounds x 16 steps == 48 steps with r = i//16, j = i%16)
+        if kind == 'for' and it[0] == 'range' and it[1] == C(0) and it[3] == C(1) and len(body_eff) == 1 and body_eff[0][0] == 'for' \
+                and not s.orelse and carried and not self.has_flow_escape(s.body):
+            e2 = body_eff[0]
+            L2, it2, inits2, nexts2, beff2, else2 = e2[1], e2[2], e2[3], e2[4], e2[5], e2[6]
+            n2 = it2[2] if it2[0] == 'range' else None
+
+            def outer_dep(x):
+                return x[0] in ('phi', 'it', 'cnt') and len(x) > 1 and x[1] == L
+            if n2 is not None and it2[1] == C(0) and it2[3] == C(1) and is_int(n2) and type(n2[1]) is int and n2[1] > 0 and not else2 \
+                    and len(inits2) == len(carried) and L2 == self.nloops and L2 == L + 1:
+                phis1 = [('phi', L, r_) + ksuf(inits[r_]) for r_ in range(len(carried))]
+                sigma = {}
+                ok_ = True
+                for j_, i2 in enumerate(inits2):
+                    if i2 in phis1 and phis1.index(i2) not in sigma.values():
+                        sigma[j_] = phis1.index(i2)
+                    else:
+                        ok_ = False
+                if ok_:
+                    for j_, k_ in sigma.items():
+                        suf2 = ('num',) if kind_of(inits2[j_]) == 'num' else ()
+                        if nexts[k_] != ('after', L2, j_) + suf2:
+                            ok_ = False
+                if ok_:
+                    I = ('it', L, 'num')
+                    sub = {('it', L, 'num'): mk_bin('//', I, n2, self.opts), ('it', L2, 'num'): mk_bin('%', I, n2, self.opts)}
+                    for j_, k_ in sigma.items():
+                        suf2 = ('num',) if kind_of(inits2[j_]) == 'num' else ()
+                        sub[('phi', L2, j_) + suf2] = phis1[k_]
+                    new_nexts = [None] * len(carried)
+                    for j_, k_ in sigma.items():
+                        new_nexts[k_] = substitute(nexts2[j_], sub, self.opts)
+                    nexts = tuple(new_nexts)
+                    body_eff = list(substitute(tuple(beff2), sub, self.opts))
+                    it = ('range', C(0), mk_bin('*', it[2], n2, self.opts), C(1))
+                    # locals of the inner body seen after the loops
+                    for v in list(env2):
+                        t_ = env2[v]
+                        if type(t_) is tuple and t_ and t_[0] == 'afterlocal' and t_[1] == L2:
+                            env2[v] = substitute(t_[2], sub, self.opts)
+                    self.nloops = L
         # ---- accumulators of a pure loop are comprehensions:  l=[]; for x in S: l.append(e)  ==  [e for x in S]
         pending_folded = {}
 
@@ -2337,17 +2499,24 @@ class PE:
             dead = []
             for rank, v in enumerate(carried):
                 phi = ('phi', L, rank) + ksuf(inits[rank])
-                used = any(mentions(x, lambda y: y == phi) for x in nexts) or mentions(tuple(body_eff), lambda y: y == phi) \
+                used = any(mentions(x, lambda y: y == phi) for k2_, x in enumerate(nexts) if not (k2_ == rank and x == phi)) \
+                    or mentions(tuple(body_eff), lambda y: y == phi) \
                     or (cond is not None and mentions(cond, lambda y: y == phi))
                 if not used and v not in self.roots:
                     dead.append(v)
             if dead:
                 keep = [v for v in carried if v not in dead]
                 for v in dead:
-                    pending_folded.setdefault(v, ('afterlocal', L, nexts[carried.index(v)]))
+                    r_ = carried.index(v)
+                    unchanged = nexts[r_] == ('phi', L, r_) + ksuf(inits[r_])
+                    pending_folded.setdefault(v, inits[r_] if unchanged else ('afterlocal', L, nexts[r_]))
                 ren, ident, inits2, nexts2 = rerank(keep)
                 if not ident:
                     body_eff = list(substitute(tuple(body_eff), ren, self.opts))
+                    for k_ in list(self.loop_W):
+                        if k_[0] > L:        # inner loops remember their initial objects in terms of this loop's phis
+                            w_, i_ = self.loop_W[k_]
+                            self.loop_W[k_] = (w_, substitute(i_, ren, self.opts))
                     if cond is not None:
                         cond = substitute(cond, ren, self.opts)
                 carried, inits, nexts = keep, inits2, nexts2
@@ -2363,12 +2532,26 @@ class PE:
                 if N[0] == 'ite':
                     a_, b_ = written_attrs(N[2], phi), written_attrs(N[3], phi)
                     return None if a_ is None or b_ is None else a_ | b_
+                if N[0] == 'after' and (N[1], N[2]) in self.loop_W:
+                    w2, init2 = self.loop_W[(N[1], N[2])]     # the object after an inner loop
+                    if w2 is None:
+                        return None
+                    w = written_attrs(init2, phi)
+                    return None if w is None else w | w2
                 return None
+            # attributes that an inner loop never stores, read from the object after that loop
+            fa_ = self.after_attr_forward(tuple(nexts) + tuple(body_eff) + ((cond,) if cond is not None else ()))
+            if fa_:
+                nexts = tuple(substitute(x, fa_, self.opts) for x in nexts)
+                body_eff = list(substitute(tuple(body_eff), fa_, self.opts))
+                if cond is not None:
+                    cond = substitute(cond, fa_, self.opts)
             fwd = {}
             pool = tuple(nexts) + tuple(body_eff) + ((cond,) if cond is not None else ())
             for rank, v in enumerate(carried):
                 phi = ('phi', L, rank) + ksuf(inits[rank])
                 W = written_attrs(nexts[rank], phi)
+                self.loop_W[(L, rank)] = (W, inits[rank])
                 if W is None or inits[rank][0] in ('c', 'list', 'tuple', 'dict'):
                     continue
                 # the object must not be handed to anything that could update it: phi may only occur under attr / its own obj wrappers
@@ -2419,6 +2602,15 @@ class PE:
             effects.append(('for', L, it, inits, nexts, tuple(body_eff), tuple(else_eff)))
         else:
             effects.append(('while', L, cond, inits, nexts, tuple(body_eff), tuple(else_eff)))
+
+    def after_attr_forward(self, pool):
+        out = {}
+        for x in walk(pool):
+            if x[0] == 'attr' and x[1][0] == 'after' and (x[1][1], x[1][2]) in self.loop_W:
+                w2, init2 = self.loop_W[(x[1][1], x[1][2])]
+                if w2 is not None and x[2] not in w2:
+                    out[x] = get_attr(init2, x[2])
+        return out
 
     def exec_funcdef(self, s, env, effects):
         if self.module_mode:
@@ -2533,10 +2725,28 @@ class PE:
         for x, d in zip(a.kwonlyargs, a.kw_defaults):
             kwo.append(('kwonly', x.arg, NONE if d is None else self.ev(d, {})))
         self.sm.sig = ('sig', tuple(C(n) for n in names), tuple(dterms), C(bool(a.vararg)), C(bool(a.kwarg)), tuple(kwo))
+        # local names through which an object is updated in place (x[i] = v, x.a = v, x.append(v)): if such a name is bound
+        # to an attribute place (x = self.a.b) it is treated as a view of that place
+        self.inplace_updated = set()
+        for n_ in ast.walk(fdef):
+            tg_ = None
+            if isinstance(n_, (ast.Subscript, ast.Attribute)) and isinstance(n_.ctx, (ast.Store, ast.Del)):
+                tg_ = n_.value
+            elif isinstance(n_, ast.Call) and isinstance(n_.func, ast.Attribute) and n_.func.attr in MUTATORS:
+                tg_ = n_.func.value
+            while isinstance(tg_, ast.Subscript):
+                tg_ = tg_.value
+            if isinstance(tg_, ast.Name):
+                self.inplace_updated.add(tg_.id)
         effects = self.sm.effects
         t = self.exec_block(fdef.body, env, effects)
         if not t:
             effects.append(('exit', 'end', NONE, self.roots_state(env)))
+        for _ in range(3):
+            fa_ = self.after_attr_forward(tuple(effects))
+            if not fa_:
+                break
+            effects[:] = list(substitute(tuple(effects), fa_, self.opts))
         effects[:] = self.tidy(effects)
         self.sm.env = env
         self.sm.nloops = self.nloops
